@@ -1,5 +1,6 @@
 import OmbottModel.Model.BodyAccess
 import OmbottModel.Lemmas.BodyAccessTotal
+import OmbottModel.Lemmas.FormsItems
 import OmbottModel.Gen.Forms
 /-!
 C12 — Malformed request bodies yield client errors, never server faults.
@@ -53,6 +54,40 @@ theorem body_access_total (maxMemfile : Nat) (jl : JLoads) (hjl : JsonContract j
   exact good_status o (accessSeq_good ⟨maxMemfile, Gen.formsErrorsMap⟩ hm jl hjl req accs {}
     (fun h => by simp at h) o ho)
 
+/-- the delimiter `CRLF--boundary` for the boundary named in the Content-Type header -/
+def delimOf (bnd : Str) : Bytes := CRLF ++ (HYPHENx2 ++ utf8Encode bnd)
+
+/-- **Only complete, delimiter-terminated parts are delivered.**  For every request whose body
+could be read (any content type naming a boundary, any parts = any bytes in any fragmentation),
+every memory budget and every field `f` that `FieldStorage.iter_items` yields — including the
+fields yielded before a later part makes the whole access fail: there is a range `s ≤ e` of the
+buffered body with `body[e : e + len(T)] = T` (`T = CRLF--boundary`), and the field is exactly
+that range: an upload is the window `(s, e)`, a text field is the strict UTF-8 decoding of
+`body[s : e]`.  Nothing that ends at the end of the input or at a look-alike is delivered. -/
+theorem delivered_fields_terminated (cfg : Cfg) (req : Req) (body : Bytes) (st : St)
+    (h : bodyOf cfg req = .ok (body, some st)) (maxRead : Int) (i : Nat) (f : FieldS)
+    (hf : (iterItems body (spooled cfg body) st.markups maxRead).items[i]? = some f) :
+    ∃ bnd, boundaryOf (req.contentType.getD []) = some bnd ∧
+    ∃ s e : Nat, s ≤ e ∧ ((body.drop e).take (delimOf bnd).length = delimOf bnd) ∧
+      ((f.filename.isSome ∧ f.file = some ((s : Int), (e : Int)) ∧ f.value = none) ∨
+       (f.filename = none ∧ f.file = none ∧ f.value.isSome ∧
+         f.value = utf8Decode ((body.drop s).take (e - s)))) := by
+  obtain ⟨bnd, s0, chunks, hbnd, hs0, _, hbody, hst⟩ := bodyOf_feed cfg req body st h
+  refine ⟨bnd, hbnd, ?_⟩
+  obtain ⟨hm, dm, mr', hr, a1, a2, a3, a4, a5⟩ := iterItems_item _ _ _ _ _ _ hf
+  have hterm := feed_terminated (utf8Encode bnd) s0 chunks hs0
+  rw [← hbody, ← hst] at hterm
+  obtain ⟨k, hk1, hk2, hk3⟩ := hterm (2 * i + 2) dm a2 (by omega) a4
+  have hpos := (bodyOf_markup cfg req body st h).2.2.2.2 dm (List.mem_of_getElem? a2)
+  refine ⟨dm.start.toNat, k, by omega, hk3, ?_⟩
+  have := readField_content body (spooled cfg body) hm.start hm.stop dm.start dm.stop mr' f hr hpos
+    (by omega) a5
+  rw [hk1] at this
+  have e1 : ((dm.start.toNat : Nat) : Int) = dm.start := by omega
+  have e2 : ((k : Int) - dm.start).toNat = k - dm.start.toNat := by omega
+  rw [e1, ← e2]
+  exact this
+
 section NonVacuity
 
 /-- a `json.loads` that keeps the contract (it raises `ValueError` on everything) -/
@@ -72,6 +107,21 @@ example :
       ⟨some "multipart/form-data; boundary=b".toList, 17,
        .ok [[45, 45, 98, 13, 10, 13, 10, 13, 10, 120, 13, 10, 45, 45, 98, 45, 45]]⟩ {}
       [.forms, .files, .body]).map statusOf = [400, 200, 200] := by
+  decide +kernel
+
+/-- `delivered_fields_terminated` is not vacuous: a body whose second part is cut off delivers
+the first field only (and then fails with a 400); the delivered value `x` is followed by the
+delimiter.  `--b CRLF Content-Disposition: form-data; name="a" CRLF CRLF x CRLF --b CRLF C: d CRLF CRLF yy` -/
+def cutBody : Bytes :=
+  utf8Encode "--b\r\nContent-Disposition: form-data; name=\"a\"\r\n\r\nx\r\n--b\r\nC: d\r\n\r\nyy".toList
+
+example :
+    (match bodyOf ⟨100, Gen.formsErrorsMap⟩
+        ⟨some "multipart/form-data; boundary=b".toList, 0, .ok [cutBody.take 20, cutBody.drop 20]⟩ with
+      | .ok (b, some st) =>
+        some ((iterItems b false st.markups 100).items.map (fun f => (f.name, f.value)),
+              (iterItems b false st.markups 100).exc)
+      | _ => none) = some ([("a".toList, some "x".toList)], some (.py .bodyParsingError)) := by
   decide +kernel
 
 end NonVacuity
